@@ -343,6 +343,8 @@ def oracle(ctx):
 def regressions(ctx, rng):
     """inputs of repaired defects that random chains reach rarely"""
     import skfem
+    # keys of the facet lookup of to_meshtri beyond 2^31 (one mesh with 48400 points; about 0.5 s)
+    run_op(ctx, O.op_to_meshtri_large, O.tagged_mesh('MeshQuad1', rng), rng)
     for it in range(ctx.n(6, 30)):
         # m0 @ [m1, m2, m3]
         ms = [O.tagged_mesh(nm, rng, holes=False, size=[2, 2]) for nm in ('MeshTri1', 'MeshQuad1', 'MeshTri1', 'MeshQuad1')]
